@@ -175,20 +175,38 @@ mutual
 end
 
 mutual
-  /-- the walrus targets `generic_visit` reaches (not below a BoolOp / UnaryOp, not in a comprehension's
-  `for` / `if` clauses), latest first -/
-  def vW : Expr → List Name
+  /-- the walrus targets `generic_visit` records in the enclosing context (not below a BoolOp / UnaryOp, not in a
+  comprehension's `for` / `if` clauses), latest first.  `loc` = parameters of enclosing lambdas / variables of enclosing
+  comprehensions in the repaired variants (`lamFix`, `compFix`): a target that is one of them stays inside (it is dropped with the
+  lambda's / comprehension's own context); in the code as found `loc` is always empty -/
+  def vW (lamFix compFix : Bool) (loc : List Name) : Expr → List Name
     | .name _ => []
     | .const _ => []
-    | .node _ cs => vWL cs
+    | .node _ cs => vWL lamFix compFix loc cs
     | .boolop _ => []
     | .unary _ => []
-    | .lam _ b => vW b
-    | .comp elt _ _ _ => vW elt
-    | .walrus x v => vW v ++ [x]
-  def vWL : Exprs → List Name
+    | .lam ps b => vW lamFix compFix (if lamFix then ps ++ loc else loc) b
+    | .comp elt tgts _ _ => vW lamFix compFix (if compFix then tgts ++ loc else loc) elt
+    | .walrus x v => vW lamFix compFix loc v ++ (if loc.contains x then [] else [x])
+  def vWL (lamFix compFix : Bool) (loc : List Name) : Exprs → List Name
     | .nil => []
-    | .cons e es => vWL es ++ vW e
+    | .cons e es => vWL lamFix compFix loc es ++ vW lamFix compFix loc e
+end
+
+mutual
+  /-- every walrus target anywhere below the node -/
+  def wAny : Expr → List Name
+    | .name _ => []
+    | .const _ => []
+    | .node _ cs => wAnyL cs
+    | .boolop vs => wAnyL vs
+    | .unary e => wAny e
+    | .lam _ b => wAny b
+    | .comp elt _ iter conds => wAny elt ++ (wAny iter ++ wAnyL conds)
+    | .walrus x v => x :: wAny v
+  def wAnyL : Exprs → List Name
+    | .nil => []
+    | .cons e es => wAny e ++ wAnyL es
 end
 
 def Exprs.toList : Exprs → List Expr
@@ -351,7 +369,8 @@ end
 
 mutual
   /-- `generic_visit` reaching an expression: decisions and the contexts afterwards (a visited walrus
-  records its target in the innermost context) -/
+  records its target in the innermost context; in the repaired variants a target that is a parameter of an enclosing
+  lambda / a variable of an enclosing comprehension lives in that node's own context and is gone with it) -/
   def xE (env : Env) (loc : List Name) (c : Ctxs) : Expr → List Dec × Ctxs
     | .name _ => ([], c)
     | .const _ => ([], c)
@@ -360,7 +379,7 @@ mutual
     | .unary e => (xD env c loc (.unary e), c)
     | .lam ps b => xE env (if env.fx.lam then ps ++ loc else loc) c b
     | .comp elt tgts _ _ => xE env (if env.fx.comp then tgts ++ loc else loc) c elt
-    | .walrus x v => xE env loc (c.addTop [x]) v
+    | .walrus x v => xE env loc (if loc.contains x then c else c.addTop [x]) v
   def xEs (env : Env) (loc : List Name) (c : Ctxs) : Exprs → List Dec × Ctxs
     | .nil => ([], c)
     | .cons e es =>
@@ -516,7 +535,7 @@ def subset (xs ys : List Name) : Bool := xs.all ys.contains
 /-- a statement's own expressions `es`, visited generically: lambdas / comprehensions as above; a walrus target must be
 reached by `generic_visit`, and the statement must not test operands while it also binds by walrus -/
 def gExprs (fx : Fixes) (es : Exprs) : Bool :=
-  gVL fx es && (fx.walrus || ((allWL es).isEmpty || decFreeL es) && subset (allWL es) (vWL es))
+  gVL fx es && (fx.walrus || ((allWL es).isEmpty || decFreeL es) && subset (allWL es) (vWL fx.lam fx.comp [] es))
 
 /-- a header whose expressions are visited inside the pushed scope (def / class): no walrus there -/
 def gHeader (fx : Fixes) (es : Exprs) : Bool :=
